@@ -131,6 +131,11 @@ def block_table(thorough):
           B("Hilbert", {"ntaps": 5}, "small", 1500, ID),
           B("FirFilter<Float>", {"taps": [1, 2, 3], "deci": 1}, "small", 2500, {"kind": "deci", "arg": 1}),
           B("Delay<u8>", {"delay": 3}, "bytes", 5000, {"kind": "delay", "arg": 3}),
+          # stateful sync blocks with more input than the output stream holds (the output is the short side)
+          B("NrziDecode", {}, "bits", 5000, ID, True),
+          B("Descrambler", {"mask": 33, "seed": 0, "len": 16}, "bits", 5000, ID, True),
+          B("QuadratureDemod", {"gain": 1.0}, "small", 1500, ID, True),
+          B("FastFM", {}, "small", 1500, ID, True),
           B("FftFilterFloat", {"taps": [1, 2, 3]}, "small", 400, ID),
           B("FftFilter", {"taps": [1, 2]}, "small", 300, ID),
           B("FftFilter", {"taps": [1, 0, 2, 1, 1]}, "small", 700, ID)]
@@ -207,6 +212,10 @@ def fn_table(thorough):
     E("FftStream", {"size": 8}, "small", 1500, F("fftframes", size=8))
     E("FftStream", {"size": 7}, "small", 1300, F("fftframes", size=7))
     E("RationalResampler<u8>", {"interp": 3, "deci": 2}, "bytes", 3500, F("resample", interp=3, deci=2))
+    # stateful sync blocks with the output as the short side
+    E("NrziDecode", {}, "bits", 5000, F("nrzi"), sync=True)
+    E("Descrambler", {"mask": 33, "seed": 0, "len": 16}, "bits", 5000, F("descramble", mask=33, seed=0, len=16), sync=True)
+    E("XorConst<u8>", {"val": 90}, "bytes", 5000, F("xor", val=90), sync=True)
     E("RtlSdrDecode", {}, "bytes", 2501, F("rtlsdr"), extra={"out_scale": 125})
     return t
 
